@@ -44,3 +44,7 @@ pub broadcast proof fn axiom_fmt_i128() ensures #[trigger] vstd::std_specs::fmt:
 pub trait ExIoWrite {
     type ExternalTraitSpecificationFor: std::io::Write;
 }
+pub assume_specification [std::fs::Metadata::len] (m: &std::fs::Metadata) -> (r: u64)
+    ensures r == meta_len(*m);
+pub assume_specification [std::path::Path::to_path_buf] (_0: &std::path::Path) -> std::path::PathBuf;
+pub assume_specification<P: core::convert::AsRef<std::path::Path>> [std::path::PathBuf::push::<P>] (_0: &mut std::path::PathBuf, _1: P);
